@@ -8,6 +8,7 @@ import Mathlib.Tactic.NormNum
 import NssVerif.Lemmas.Cphot
 import NssVerif.Lemmas.Zsteps
 import NssVerif.Gen.Src.C06
+import NssVerif.Model.Numpy
 import NssVerif.Lemmas.CphotSrc
 
 /-!
@@ -402,5 +403,524 @@ theorem src_runOn (c : Consts ℝ) (detAlt β alt e100 : ℝ) (segs : List (Seg 
   unfold runOn
   simp only [src_runHead, src_finish]
   cases penultimate segs <;> cases cloud <;> simp
+
+/-! ### source tie, second part: the body of `run` between the translated head and tail
+
+Per-element translations (one altitude / one segment × one wavelength / one ring × one energy bin) of `ozone_losses`,
+the ozone increment of `slant_depth`, `aerosol_model`, the pieces of `photon_sum`, `cher_ang_sig_i` and the body of `run`;
+reductions are split (summand out, reduced value in), shifted views (`x[:-1]`, `x[1:]`) are inputs that the theorems fill
+with a list and its tail.  `segOutSrc` / `finishSrc` re-assemble them over the segment, wavelength, ring and energy axes;
+`src_segments`, `src_finishBody`, `src_runOn_body` show the model IS that assembly. -/
+
+section srcbody
+variable {α : Type} [Scalar α]
+
+/-- `ZonZ_vals = (TotZons[:-1] - TotZons[1:]) / delzs * self.dL` in `CphotAng.slant_depth`, the shifted views as two inputs:
+the model's ozone slant increments (`tot` = ozone column at the decay altitude and at every step) -/
+theorem src_zonZVal (c : Consts α) (tot dzs : List α) :
+    zipWith3 (fun a b d => (a - b) / d * c.dL) tot tot.tail dzs
+      = zipWith3 (fun a b d => (Gen.Src.C06.zonZVal c.dL d a b).ZonZ_vals) tot tot.tail dzs := by rfl
+
+/-- `sigval` of `photon_sum` (one (segment, wavelength) element): the yield per histogram bin area, as `finish` divides it -/
+theorem src_sigval (c : Consts α) (y d t : α) :
+    (Gen.Src.C06.photonSumLimits y d t c.histBin).sigval = y / Scalar.sq (1e3 * c.histBin) := by rfl
+
+/-- `athetaj` / `sthetaj` of `photon_sum` (one (segment, ring) element): the model's `chord2 ∘ atan2` at the ring's mid radius and at its edge -/
+theorem src_photonSumAngles (d j jHi : α) :
+    Gen.Src.C06.photonSumAngles d j jHi
+      = ⟨chord2 (Scalar.atan2 (jHi - 0.5) d), chord2 (Scalar.atan2 j d)⟩ := by rfl
+
+/-- `vhill`, `wave`, `poweha` of `photon_sum` (one (segment, energy bin) element) as `hillasBins` spells them -/
+theorem src_photonSumWave (e2 ea : α) :
+    Gen.Src.C06.photonSumWave e2 ea
+      = ⟨ea / e2, 0.0054 * ea * (1 + ea / e2) / (1 + 13 * (ea / e2) + 8.3 * Scalar.sq (ea / e2)), Scalar.sq (ea / 21.0)⟩ := by rfl
+
+/-- `AveCangI = np.sum(taphotstep * thetaC) / taphotsum` in `run`, the sum split: summand and quotient -/
+theorem src_runAve (s2 t th ts : α) : Gen.Src.C06.runAve s2 t th ts = ⟨t * th, s2 / ts⟩ := by rfl
+
+end srcbody
+
+/-- `CphotAng.ozone_losses` for one altitude, the three tables of `c` as the list inputs, whatever the uninitialised memory of
+`np.empty_like` held: the three masks cover the line, `np.searchsorted` is the count of leading entries `< z`, and numpy's
+wrap-around of the index −1 (reached at `z = OzZeta[0]`) is the model's `im`.  At ℝ only (masks vs. nested `if`, `dtype(310)`). -/
+theorem src_ozoneLosses (c : Consts ℝ) (z uninit : ℝ) :
+    Gen.Src.C06.ozoneLosses z c.ozZeta c.ozDsum c.ozDepth uninit = ozoneLoss c z := by
+  unfold Gen.Src.C06.ozoneLosses ozoneLoss Np.searchsortedLeft searchsortedLeft
+  by_cases h1 : z < 5.35
+  · have h2 : ¬ (100 ≤ z) := by
+      intro h; norm_num at h1; linarith
+    simp [h1, h2]
+    have h3 : ¬ ((5.35:ℝ) ≤ z ∧ z < 100) := by
+      rintro ⟨h, _⟩; norm_num at h1 h; linarith
+    rw [if_neg h3]; norm_num
+  · by_cases h2 : 100 ≤ z
+    · simp [h1, h2]
+    · simp [h1, h2]
+
+/-- `CphotAng.aerosol_model`, one (segment, wavelength) element; the gathers `aOD55[np.int32(z)]`, `dfaOD55[np.int32(z)]` are
+`getD` at `trunc z` on the tables of `c` (guard `0 ≤ trunc z < 30 = len`, implied by `0 ≤ z < 30` under the mask): the model's row
+is that element over `aBetaF`.  At ℝ only: the source stores under the mask `z < 30` into `np.ones`, spelled `1.0`. -/
+theorem src_aerosolModel (c : Consts ℝ) (z tp : ℝ) :
+    aerosolRow c z tp = c.aBetaF.map fun b => Gen.Src.C06.aerosolModel z tp b c.pi c.aOD55 c.dfaOD55 := by
+  unfold aerosolRow Gen.Src.C06.aerosolModel
+  by_cases h : z < 30
+  · simp [h]
+  · simp [h]; right; norm_num
+
+
+/-- `jlim` -/
+theorem truncR_floor_add_one (x : ℝ) : Real.truncR ((⌊x⌋ : ℝ) + 1) = ⌊x⌋ + 1 := by
+  have h : ((⌊x⌋ : ℝ) + 1) = (((⌊x⌋ + 1 : ℤ)) : ℝ) := by push_cast; ring
+  unfold Real.truncR
+  rw [h]
+  split <;> simp
+
+/-- helper: truncation of an integer-valued real -/
+theorem truncR_floor (x : ℝ) : Real.truncR ((⌊x⌋ : ℝ)) = ⌊x⌋ := by
+  unfold Real.truncR
+  split <;> simp
+
+/-- `jlim = np.floor(CradLim) + 1` of `photon_sum` (a real array in the source): the model's natural number is its truncation -/
+theorem src_jlim (y d t hb : ℝ) :
+    jlim d t = (Scalar.trunc (Gen.Src.C06.photonSumLimits y d t hb).jlim).toNat := by
+  unfold jlim Gen.Src.C06.photonSumLimits
+  simp only [floor_eq, trunc_eq, tan_eq, ofNat_eq, Nat.cast_ofNat]
+  rw [show ((⌊d * Real.tan t⌋ : ℝ) + ((1 : ℕ) : ℝ)) = (⌊d * Real.tan t⌋ : ℝ) + 1 by norm_num, truncR_floor_add_one, truncR_floor]
+
+/-- ring `jj + 1` is summed by the model (`jj < jlim − 1`) exactly when the source's mask `jjstep < jlim` holds at `jjstep = jj + 1` -/
+theorem src_photonSumRing (y d t hb : ℝ) (jj : ℕ) :
+    (Gen.Src.C06.photonSumRing ((jj + 1 : ℕ) : ℝ) (Gen.Src.C06.photonSumLimits y d t hb).jlim).jmask = true
+      ↔ jj < jlim d t - 1 := by
+  unfold jlim Gen.Src.C06.photonSumLimits Gen.Src.C06.photonSumRing
+  simp only [floor_eq, trunc_eq, tan_eq, ofNat_eq, Nat.cast_ofNat, ltb_eq, truncR_floor]
+  generalize ⌊d * Real.tan t⌋ = m
+  have : (((jj + 1 : ℕ) : ℝ) < (m : ℝ) + ((1 : ℕ) : ℝ)) ↔ ((jj : ℤ) + 1 < m + 1) := by
+    rw [show ((m : ℝ) + ((1 : ℕ) : ℝ)) = ((m + 1 : ℤ) : ℝ) by push_cast; ring,
+        show (((jj + 1 : ℕ)) : ℝ) = (((jj : ℤ) + 1 : ℤ) : ℝ) by push_cast; ring]
+    exact Int.cast_lt
+  rw [this]
+  omega
+
+/-- `ehillave`, `tlen`, `deltrack` (with its clamp), `wave`, `poweha` of `photon_sum`: the model's energy bins of one segment are the
+translated per-bin elements, the shifted views `ehill[:-1]`/`ehill[1:]`, `tlen[..., :-1]`/`tlen[..., 1:]` filled with a list and
+its tail.  At ℝ: `dtype(2)`, `dtype(5)`, `dtype(0.0)` are spelled `2.0`, `5.0`, `0.0`. -/
+theorem src_hillasBins (sg : Seg ℝ) (ecth tfrac e0v : ℝ) (eh : List ℝ) :
+    hillasBins sg ecth tfrac e0v eh =
+      (let B := fun e lo hi tl th => Gen.Src.C06.photonSumBins ecth tfrac e0v sg.s sg.e2hill e lo hi tl th
+       let tlen := eh.map fun e => (B e 0 0 0 0).tlen
+       let deltrack := List.zipWith (fun a b => (B 0 0 0 a b).deltrack) tlen tlen.tail
+       let ehillave := List.zipWith (fun lo hi => (B 0 lo hi 0 0).ehillave) eh eh.tail
+       List.zipWith (fun ea dt =>
+           let w := Gen.Src.C06.photonSumWave sg.e2hill ea
+           (w.poweha, w.wave, dt)) ehillave deltrack) := by
+  unfold hillasBins Gen.Src.C06.photonSumBins Gen.Src.C06.photonSumWave tracklen
+  simp only [show (2.0:ℝ) = 2 by norm_num, show (5.0:ℝ) = 5 by norm_num, show (0.0:ℝ) = 0 by norm_num, sq_eq, zeroR, ofNat_eq]
+  norm_num
+
+/-- the Hillas term `svtrm[z, j, e]` of `photon_sum` (before the ring mask): `uhill`, `ubin` (the two `einsum` products divided by
+`wave`), the difference of `ubin` along the ring axis with the shifted views filled by the translated `ubin` at rings `j` and `j − 1`,
+the clamp, `xhill`, the two-slope exponential and the product with `deltrack · 0.777` — is the model's `svTerm` for ring `j ≥ 1`. -/
+theorem src_svTerm (dist : ℝ) (j : ℕ) (pw wave dt hb tot sig : ℝ) :
+    svTerm dist j (pw, wave, dt) =
+      (let ang := fun (jLo jHi : ℝ) => Gen.Src.C06.photonSumAngles dist jLo jHi
+       let T := fun a st uh ul => Gen.Src.C06.photonSumTerm hb tot a st pw wave dt sig uh ul true
+       (T (ang 0 (Scalar.ofNat j)).athetaj 0
+          (T 0 (ang (Scalar.ofNat j) 0).sthetaj 0 0).ubin_1
+          (T 0 (ang (Scalar.ofNat (j - 1)) 0).sthetaj 0 0).ubin_1).svtrm) := by
+  unfold svTerm Gen.Src.C06.photonSumTerm Gen.Src.C06.photonSumAngles chord2
+  simp only [show (0.0:ℝ) = 0 by norm_num, sq_eq, zeroR, ofNat_eq]
+  norm_num
+
+/-- the split total of `photon_sum`: the summand of `einsum('zje,zw->')` is `svtrm · sigval`, the returned value the total times
+the bin area, and a ring outside the mask contributes 0 -/
+theorem src_photsumTotal (hb tot a st pw wave dt sig uh ul : ℝ) (k : Bool) :
+    (Gen.Src.C06.photonSumTerm hb tot a st pw wave dt sig uh ul k).total0Arg
+        = (Gen.Src.C06.photonSumTerm hb tot a st pw wave dt sig uh ul k).svtrm * sig
+      ∧ (Gen.Src.C06.photonSumTerm hb tot a st pw wave dt sig uh ul k).photsum = tot * Scalar.sq (1e3 * hb)
+      ∧ (k = false → (Gen.Src.C06.photonSumTerm hb tot a st pw wave dt sig uh ul k).svtrm = 0) := by
+  refine ⟨rfl, rfl, ?_⟩
+  intro h; subst h
+  simp [Gen.Src.C06.photonSumTerm]; norm_num
+
+/-- `CphotAng.cher_ang_sig_i` with both reductions split: the summands under `np.count_nonzero` and `np.sum`, and the returned
+spread for a count `nA` and a sum `sig0` — the three expressions `finish` uses (`nAcnt` is a natural number in the model) -/
+theorem src_cherAngSigI (t ts th ave sig0 : ℝ) (nA : ℕ) :
+    Gen.Src.C06.cherAngSigI t ts th ave (Scalar.ofNat nA) sig0
+      = ⟨t * th, t / ts * Scalar.sq (th - ave),
+         if nA > 1 then Scalar.sqrt (sig0 * Scalar.ofNat nA / Scalar.ofNat (nA - 1)) else Scalar.sqrt sig0⟩ := by
+  unfold Gen.Src.C06.cherAngSigI
+  have e : ∀ n : ℕ, (Scalar.ofNat n : ℝ) = (n : ℝ) := fun n => rfl
+  simp only [e, sq_eq, sqrt_eq, ofNat_eq, Nat.cast_one]
+  by_cases h : nA > 1
+  · have h1 : Scalar.ltb (1:ℝ) (nA:ℝ) = true := by rw [ltb_eq]; exact_mod_cast h
+    have h2 : ((nA - 1 : ℕ) : ℝ) = (nA : ℝ) - 1 := by
+      rw [Nat.cast_sub (by omega)]; simp
+    rw [if_pos h1, if_pos h, h2]
+  · have h1 : ¬ (Scalar.ltb (1:ℝ) (nA:ℝ) = true) := by
+      rw [ltb_eq]; intro h'; apply h; exact_mod_cast h'
+    rw [if_neg h1, if_neg h]
+
+/-- the body of `run` from the cloud mask to the photon totals, for one (segment, wavelength) element (`e0`,
+`cherenkov_threshold_angle`, `tracklen`, `d_to_det` inlined from their own source): what `segOut` / `finish` compute — the mask
+`zs < cloud top`, the masked yield, the Cherenkov angle, the track-length fraction, the distance, `taphotstep = Σ_w SPYield · Tfrac` -/
+theorem src_runBody (c : Consts ℝ) (sg : Seg ℝ) (tv h iz y ps s0 s1 eshow : ℝ) :
+    Gen.Src.C06.runBody c.pi c.radE iz y ps s0 s1 sg.z h sg.airN sg.s sg.thetPrp tv sg.rN sg.delgram sg.zonZ sg.e2hill eshow
+      = (let tf := tracklen (e0 sg.s) (eCthres sg.airN) sg.s
+         let yy := if Scalar.ltb sg.z h then 0 else y
+         ⟨yy, s0 * tf, Scalar.ltb sg.z h, e0 sg.s, eCthres sg.airN, thetaC sg.airN, tf, dToDet c tv sg.thetPrp sg.z, yy, s0 * tf, s1⟩) := by
+  unfold Gen.Src.C06.runBody tracklen e0 eCthres thetaC dToDet
+  simp only [show (0.0:ℝ) = 0 by norm_num, sq_eq, zeroR]
+
+
+/-! #### assembly -/
+
+theorem zipWith4_map_last {β γ δ ε ε' ζ : Type} (f : β → γ → δ → ε → ζ) (g : ε' → ε) :
+    ∀ (a : List β) (b : List γ) (c : List δ) (d : List ε'),
+      zipWith4 f a b c (d.map g) = zipWith4 (fun x y z w => f x y z (g w)) a b c d
+  | [], _, _, _ => by simp [zipWith4]
+  | _ :: _, [], _, _ => by simp [zipWith4]
+  | _ :: _, _ :: _, [], _ => by simp [zipWith4]
+  | _ :: _, _ :: _, _ :: _, [] => by simp [zipWith4]
+  | x :: a, y :: b, z :: c, w :: d => by
+    simp only [List.map_cons, zipWith4]
+    rw [zipWith4_map_last f g a b c d]
+
+/-- `sphoton_yeild` with `aerosol_model` in place: the model's row of scaled photon yields is, bin by bin, the translated
+yield element applied to the translated aerosol transmission element (the wavelength constants of `c` zipped) -/
+theorem src_spyRow (c : Consts ℝ) (sg : Seg ℝ) :
+    spyRow c sg = zipWith4 (fun wm kap pyc ab =>
+        Gen.Src.C06.sphotonYeild (thetaC sg.airN) sg.rN sg.delgram sg.zonZ sg.z sg.thetPrp pyc wm kap
+          (Gen.Src.C06.aerosolModel sg.z sg.thetPrp ab c.pi c.aOD55 c.dfaOD55))
+      c.wmean c.okappa c.pYieldCoeff c.aBetaF := by
+  rw [src_sphotonYeild, src_aerosolModel, zipWith4_map_last]
+
+/-- the Hillas term translated from `photon_sum` for ring `j` and one energy bin `(poweha, wave, deltrack)` -/
+noncomputable def svTermSrc (dist : ℝ) (j : ℕ) (kept : Bool) (bin : ℝ × ℝ × ℝ) : ℝ :=
+  let ang := fun (jLo jHi : ℝ) => Gen.Src.C06.photonSumAngles dist jLo jHi
+  let T := fun a st uh ul => Gen.Src.C06.photonSumTerm 0 0 a st bin.1 bin.2.1 bin.2.2 0 uh ul kept
+  (T (ang 0 (Scalar.ofNat j)).athetaj 0
+     (T 0 (ang (Scalar.ofNat j) 0).sthetaj 0 0).ubin_1
+     (T 0 (ang (Scalar.ofNat (j - 1)) 0).sthetaj 0 0).ubin_1).svtrm
+
+/-- `svTermSrc` on a kept ring is the model's term (`src_svTerm`) -/
+theorem svTermSrc_true (dist : ℝ) (j : ℕ) (bin : ℝ × ℝ × ℝ) : svTermSrc dist j true bin = svTerm dist j bin := by
+  obtain ⟨pw, wave, dt⟩ := bin
+  rw [src_svTerm dist j pw wave dt 0 0 0]
+  rfl
+
+/-- … as functions of the bin -/
+theorem svTermSrc_true_fun (dist : ℝ) (j : ℕ) : svTermSrc dist j true = svTerm dist j :=
+  funext (svTermSrc_true dist j)
+
+/-- `svtrm[~jmask[..., 1:]] = 0`: outside the ring limit the translated term is 0 -/
+theorem svTermSrc_false (dist : ℝ) (j : ℕ) (bin : ℝ × ℝ × ℝ) : svTermSrc dist j false bin = 0 := by
+  unfold svTermSrc
+  exact (src_photsumTotal _ _ _ _ _ _ _ _ _ _ false).2.2 rfl
+
+/-- helper: a sum over `J ≥ n` rings whose terms beyond `n` are zeroed is the sum over the first `n` -/
+theorem masked_ring_sum (f : ℕ → ℝ) (n : ℕ) : ∀ J : ℕ, n ≤ J →
+    ((List.range J).map fun jj => if jj < n then f jj else 0).sum = ((List.range n).map f).sum := by
+  intro J
+  induction J with
+  | zero => intro h; have : n = 0 := by omega
+            subst this; simp
+  | succ J ih =>
+    intro h
+    rw [List.range_succ, List.map_append, List.sum_append]
+    by_cases hn : n ≤ J
+    · rw [ih hn]; simp; intro h'; omega
+    · have : n = J + 1 := by omega
+      subst this
+      rw [List.range_succ, List.map_append, List.sum_append]
+      congr 1
+      · congr 1
+        apply List.map_congr_left
+        intro a ha
+        have : a < J := List.mem_range.mp ha
+        simp; intro h'; omega
+      · simp
+
+/-- the angular integration of one segment as `photon_sum` performs it: a RECTANGULAR sum over the rings `1 … J` (`J + 1` =
+`max_jlim`, at least this segment's own limit) and the energy bins of the translated Hillas term, the rings beyond the
+segment's limit zeroed through the translated mask `jjstep < jlim` — equals the model's sum over the kept rings only. -/
+theorem src_hillasSum (y d t hb : ℝ) (bins : List (ℝ × ℝ × ℝ)) (J : ℕ) (hJ : jlim d t - 1 ≤ J) :
+    hillasSum d (jlim d t) bins =
+      Scalar.sum ((List.range J).map fun jj => Scalar.sum (bins.map fun bin =>
+        svTermSrc d (jj + 1)
+          (Gen.Src.C06.photonSumRing (((jj + 1 : ℕ)) : ℝ) (Gen.Src.C06.photonSumLimits y d t hb).jlim).jmask bin)) := by
+  unfold hillasSum
+  simp only [sum_eq]
+  rw [← masked_ring_sum _ _ J hJ]
+  congr 1
+  apply List.map_congr_left
+  intro jj _
+  by_cases h : jj < jlim d t - 1
+  · have hk := (src_photonSumRing y d t hb jj).mpr h
+    rw [if_pos h, hk]
+    simp only [svTermSrc_true]
+  · have hk : (Gen.Src.C06.photonSumRing (((jj + 1 : ℕ)) : ℝ) (Gen.Src.C06.photonSumLimits y d t hb).jlim).jmask = false := by
+      cases hb' : (Gen.Src.C06.photonSumRing (((jj + 1 : ℕ)) : ℝ) (Gen.Src.C06.photonSumLimits y d t hb).jlim).jmask
+      · rfl
+      · exact absurd ((src_photonSumRing y d t hb jj).mp hb') h
+    rw [if_neg h, hk]
+    simp only [svTermSrc_false]
+    symm; rw [← sum_eq]; apply sum_zero; intro x hx
+    obtain ⟨_, _, rfl⟩ := List.mem_map.mp hx; rfl
+
+
+/-- everything `run` computes for one valid segment, assembled from TRANSLATED code only (the list plumbing over the
+wavelength / energy / ring axes and the left-to-right sums are written here; `eh` is the list of energy nodes `ehill`) -/
+noncomputable def segOutSrc (c : Consts ℝ) (tv : ℝ) (eh : List ℝ) (cloud : Option ℝ) (sg : Seg ℝ) : SegOut ℝ :=
+  let B := fun (h y : ℝ) => Gen.Src.C06.runBody c.pi c.radE 0 y 0 0 0 sg.z h sg.airN sg.s sg.thetPrp tv sg.rN sg.delgram
+    sg.zonZ sg.e2hill 0
+  let b0 := B 0 0
+  let row := zipWith4 (fun wm kap pyc ab =>
+      Gen.Src.C06.sphotonYeild b0.thetaC sg.rN sg.delgram sg.zonZ sg.z sg.thetPrp pyc wm kap
+        (Gen.Src.C06.aerosolModel sg.z sg.thetPrp ab c.pi c.aOD55 c.dfaOD55))
+    c.wmean c.okappa c.pYieldCoeff c.aBetaF
+  let spy := match cloud with
+    | none => row                                        -- `cloudf=None`: cloud top −∞, the mask `zs < −∞` is empty
+    | some h => row.map fun y => (B h y).SPYield          -- `SPYield[cloud_mask, ...] = 0`
+  let lim := Gen.Src.C06.photonSumLimits 0 b0.DistStep b0.thetaC c.histBin
+  let jl := (Scalar.trunc lim.jlim).toNat
+  let PB := fun e lo hi tl th => Gen.Src.C06.photonSumBins b0.eCthres b0.Tfrac b0.E0 sg.s sg.e2hill e lo hi tl th
+  let tlen := eh.map fun e => (PB e 0 0 0 0).tlen
+  let deltrack := List.zipWith (fun a b => (PB 0 0 0 a b).deltrack) tlen tlen.tail
+  let ehillave := List.zipWith (fun lo hi => (PB 0 lo hi 0 0).ehillave) eh eh.tail
+  let bins := List.zipWith (fun ea dt =>
+      let w := Gen.Src.C06.photonSumWave sg.e2hill ea
+      (w.poweha, w.wave, dt)) ehillave deltrack
+  let hsum := Scalar.sum ((List.range (jl - 1)).map fun jj => Scalar.sum (bins.map (svTermSrc b0.DistStep (jj + 1) true)))
+  ⟨b0.thetaC, b0.Tfrac, b0.DistStep, jl, spy, hsum⟩
+
+/-- is the segment below the cloud top (`none`: no cloud) -/
+noncomputable def belowCloud (cloud : Option ℝ) (sg : Seg ℝ) : Bool :=
+  match cloud with
+  | none => false
+  | some h => Scalar.ltb sg.z h
+
+/-- the model's per-segment record is the one assembled from translated code -/
+theorem src_segOut (c : Consts ℝ) (tv : ℝ) (eh : List ℝ) (cloud : Option ℝ) (sg : Seg ℝ) :
+    segOut c tv eh (belowCloud cloud sg) sg = segOutSrc c tv eh cloud sg := by
+  unfold segOutSrc segOut
+  simp only [src_runBody]
+  congr 1
+  · exact src_jlim 0 _ _ c.histBin
+  · rw [src_spyRow]
+    cases cloud with
+    | none => simp [belowCloud, maskRow]
+    | some h =>
+      simp only [belowCloud, maskRow]
+      by_cases hlt : sg.z < h
+      · simp [hlt]
+      · simp [hlt]
+  · rw [src_hillasBins, src_jlim 0 _ _ c.histBin]
+    unfold hillasSum
+    simp only [svTermSrc_true_fun]
+
+/-- helper -/
+theorem segOutSrc_tfrac (c : Consts ℝ) (tv : ℝ) (eh : List ℝ) (cloud : Option ℝ) (sg : Seg ℝ) :
+    (segOutSrc c tv eh cloud sg).tfrac = tracklen (e0 sg.s) (eCthres sg.airN) sg.s := by
+  rw [← src_segOut]; rfl
+
+/-- `photsum *= (1e3·hist_bin_size)²` -/
+theorem src_photsum (hb tot a st pw wave dt sig uh ul : ℝ) (k : Bool) :
+    (Gen.Src.C06.photonSumTerm hb tot a st pw wave dt sig uh ul k).photsum = tot * Scalar.sq (1e3 * hb) := rfl
+
+/-- the part of `run` after the cloud decision, assembled from TRANSLATED code: per segment `segOutSrc`; the total of
+`photon_sum` (`einsum('zje,zw->')`, factorised: `src_einsum_factor`), the sums over wavelengths and segments, the mean angle
+and its spread through the translated `run` body / `cher_ang_sig_i` with their split reductions re-joined by left-to-right
+sums; `np.argmax`, `np.count_nonzero`, the test `taphotsum == 0` and the energy nodes `ehill` are the model's. -/
+noncomputable def finishSrc (tail : ℝ → ℝ → ℝ → ℝ → ℝ × ℝ) (c : Consts ℝ) (eshow tv : ℝ) (segs : List (Seg ℝ))
+    (cloud : Option ℝ) : ℝ × ℝ :=
+  let eh := ehill eshow
+  let outs := segs.map (segOutSrc c tv eh cloud)
+  let tot := Scalar.sum (outs.map fun o =>
+    o.hsum * Scalar.sum (o.spy.map fun y => (Gen.Src.C06.photonSumLimits y 0 0 c.histBin).sigval))
+  let photsum := (Gen.Src.C06.photonSumTerm c.histBin tot 0 0 0 0 0 0 0 0 true).photsum
+  let taphotstep := segs.map fun sg =>
+    (Gen.Src.C06.runBody c.pi c.radE 0 0 0 (Scalar.sum (segOutSrc c tv eh cloud sg).spy) 0 sg.z 0 sg.airN sg.s sg.thetPrp tv
+      sg.rN sg.delgram sg.zonZ sg.e2hill 0).taphotstep
+  let taphotsum := Scalar.sum taphotstep
+  if Scalar.eqb taphotsum 0 then (0, 0) else
+  let wthc := List.zipWith (fun t o => (Gen.Src.C06.runAve 0 t o.thC 0).sum2Arg) taphotstep outs
+  let ave := (Gen.Src.C06.runAve (Scalar.sum wthc) 0 0 taphotsum).AveCangI
+  let cntArgs := List.zipWith (fun t o => (Gen.Src.C06.cherAngSigI t taphotsum o.thC ave 0 0).cnt0Arg) taphotstep outs
+  let nA := (cntArgs.filter fun x => !(Scalar.eqb x 0)).length
+  let sig0 := Scalar.sum (List.zipWith (fun t o => (Gen.Src.C06.cherAngSigI t taphotsum o.thC ave 0 0).sum0Arg) taphotstep outs)
+  let sig := (Gen.Src.C06.cherAngSigI 0 taphotsum 0 ave (Scalar.ofNat nA) sig0).ret
+  let izmax := argmax (segs.map (·.rN))
+  let dmax := (outs.map (·.dist)).getD izmax 0
+  tail photsum ave sig dmax
+
+/-- the model's `finish` (with the tail as a parameter, `finishWith`) on the cloud mask of a cloud top IS `finishSrc` -/
+theorem src_finishBody (tail : ℝ → ℝ → ℝ → ℝ → ℝ × ℝ) (c : Consts ℝ) (eshow tv : ℝ) (segs : List (Seg ℝ)) (cloud : Option ℝ) :
+    finishWith tail c eshow tv segs (segs.map (belowCloud cloud)) = finishSrc tail c eshow tv segs cloud := by
+  have houts : List.zipWith (segOut c tv (ehill eshow)) (segs.map (belowCloud cloud)) segs
+      = segs.map (segOutSrc c tv (ehill eshow) cloud) := by
+    rw [List.zipWith_map_left, List.zipWith_self]
+    apply List.map_congr_left
+    intro sg _
+    exact src_segOut c tv (ehill eshow) cloud sg
+  unfold finishWith finishSrc
+  simp only [houts, src_runAve, src_cherAngSigI, src_sigval, src_runBody, src_photsum, List.map_map, Function.comp_def,
+    segOutSrc_tfrac, zeroR]
+  rfl
+
+
+/-- the total of `photon_sum`, `einsum('zje,zw->', svtrm, sigval)`, for one segment: the sum over rings, energy bins and
+wavelengths of the products factorises into (sum over rings and bins) × (sum over wavelengths) — list algebra over ℝ; it
+is the form the model (and `finishSrc`) uses.  The ORDER of the floating-point summation inside numpy's einsum is not
+modelled (trusted base); over ℝ every order gives this number. -/
+theorem src_einsum_factor (rows : List (List ℝ)) (ws : List ℝ) :
+    Scalar.sum (rows.map fun r => Scalar.sum (r.map fun a => Scalar.sum (ws.map fun b => a * b)))
+      = Scalar.sum (rows.map Scalar.sum) * Scalar.sum ws := by
+  simp only [sum_eq]
+  have h1 : ∀ a : ℝ, (ws.map fun b => a * b).sum = a * ws.sum := by
+    intro a; induction ws with
+    | nil => simp
+    | cons w ws ih => simp [ih]; ring
+  have h2 : ∀ r : List ℝ, (r.map fun a => a * ws.sum).sum = r.sum * ws.sum := by
+    intro r; induction r with
+    | nil => simp
+    | cons a r ih => simp [ih]; ring
+  simp only [h1, h2]
+  induction rows with
+  | nil => simp
+  | cons r rows ih => simp [ih, sum_eq]; ring
+
+/-- `slant_depth` followed by `valid_arrays`, assembled from TRANSLATED code: the altitude steps come from `zsteps`
+(zsteps.cpp: the model's loop, see `src_zsteps_*`), every per-step quantity from the translated `grammage`, slant increment,
+`ozone_losses`, ozone increment, `theta_prop` and `valid_arrays`; the running sums (`np.cumsum`, sequential) and the
+compress are the model's list functions.  `u1 … u4` stand for the uninitialised memory of the four `np.empty_like` arrays. -/
+theorem src_segments (c : Consts ℝ) (s alt eshow u1 u2 u3 u4 : ℝ) :
+    segments c s alt eshow =
+      (let st := zsteps c s alt
+       let zs := st.map (·.1)
+       let dzs := st.map (·.2)
+       let gr := zs.map fun z => Gen.Src.C06.grammage z u1 u2
+       let vals := gr.map fun g => (Gen.Src.C06.slantVal c.dL g.2).delgram_vals
+       let gramsum := cumsum vals
+       let delgram := suffixSums vals
+       let tot := (alt :: zs).map fun z => Gen.Src.C06.ozoneLosses z c.ozZeta c.ozDsum c.ozDepth u3
+       let zonVals := zipWith3 (fun a b d => (Gen.Src.C06.zonZVal c.dL d a b).ZonZ_vals) tot tot.tail dzs
+       let zonZ := suffixSums zonVals
+       let segs := zipWith5 (fun z dg gs gz zz =>
+           let r := Gen.Src.C06.validArrays z dg gs gz zz (Gen.Src.C06.thetaProp z s c.radE c.zmax) eshow c.zmax c.ecrit u4
+           if r.1 then some (⟨r.2.1, r.2.2.1, r.2.2.2.1, r.2.2.2.2.1, r.2.2.2.2.2.1, r.2.2.2.2.2.2.1, r.2.2.2.2.2.2.2.1,
+                          r.2.2.2.2.2.2.2.2⟩ : Seg ℝ) else none)
+         zs delgram gramsum (gr.map (·.1)) zonZ
+       (segs.filterMap id, st.length)) := by
+  have ho : (fun z => Gen.Src.C06.ozoneLosses z c.ozZeta c.ozDsum c.ozDepth u3) = ozoneLoss c :=
+    funext fun z => src_ozoneLosses c z u3
+  have hz : List.zipWith grammageRho (List.map (fun x => x.1) (zsteps c s alt))
+      (List.map (fun x => grammageX x.1) (zsteps c s alt))
+      = List.map (fun x => grammageRho x.1 (grammageX x.1)) (zsteps c s alt) := by
+    rw [List.zipWith_map_left, List.zipWith_map_right, List.zipWith_self]
+  unfold segments slantVals
+  simp only [src_grammage, ho, List.map_map, Function.comp_def, ← src_validArrays c _ _ _ _ _ _ eshow u4, src_thetaProp, hz]
+  rfl
+
+
+section gatherguards
+open Gen.Cphot
+
+/-- helper: `takeWhile` stops before the end when the last element fails the test -/
+theorem takeWhile_length_lt {β : Type} (p : β → Bool) :
+    ∀ (l : List β) (h : l ≠ []), p (l.getLast h) = false → (l.takeWhile p).length < l.length
+  | [], h, _ => absurd rfl h
+  | [a], _, hp => by
+    simp only [List.getLast_singleton] at hp
+    simp [List.takeWhile, hp]
+  | a :: b :: l, _, hp => by
+    rw [List.getLast_cons (by simp)] at hp
+    have ih := takeWhile_length_lt p (b :: l) (by simp) hp
+    rw [List.takeWhile_cons]
+    split
+    · simp only [List.length_cons] at ih ⊢; omega
+    · simp
+
+/-- gather guard of `aerosol_model` made explicit, on the shipped tables (regenerated from the live instance on every run):
+under the source's mask `z < 30` and for a non-negative altitude the index `np.int32(z)` is a valid position of both
+optical-depth tables — numpy neither wraps around nor raises there, and the `getD` default of the translation is never read -/
+theorem src_aerosol_gather_in_range (z : ℝ) (h0 : 0 ≤ z) (h30 : z < 30) :
+    0 ≤ Scalar.trunc z ∧ (Scalar.trunc z).toNat < (c64 : Consts ℝ).aOD55.length
+      ∧ (Scalar.trunc z).toNat < (c64 : Consts ℝ).dfaOD55.length := by
+  have hl1 : (c64 : Consts ℝ).aOD55.length = 30 := rfl
+  have hl2 : (c64 : Consts ℝ).dfaOD55.length = 30 := rfl
+  have ht : Scalar.trunc z = ⌊z⌋ := by simp [Real.truncR, h0]
+  have hf : ⌊z⌋ < 30 := Int.floor_lt.mpr (by exact_mod_cast h30)
+  have hf0 : 0 ≤ ⌊z⌋ := Int.floor_nonneg.mpr h0
+  rw [hl1, hl2, ht]; omega
+
+/-- gather guard of `ozone_losses` made explicit, on the shipped tables: under the source's mask `z < 100` the index
+`np.searchsorted(OzZeta, z)` is a valid position of the three tables (the last node is 100 km) — numpy does not raise and the
+`getD` default is never read; the index `idxs − 1` is valid too (−1 wraps to the last entry, as `src_ozoneLosses` spells out) -/
+theorem src_ozone_gather_in_range (z : ℝ) (h : z < 100) :
+    Np.searchsortedLeft (c64 : Consts ℝ).ozZeta z < (c64 : Consts ℝ).ozZeta.length
+      ∧ (c64 : Consts ℝ).ozDsum.length = (c64 : Consts ℝ).ozZeta.length
+      ∧ (c64 : Consts ℝ).ozDepth.length = (c64 : Consts ℝ).ozZeta.length := by
+  refine ⟨?_, rfl, rfl⟩
+  unfold Np.searchsortedLeft
+  apply takeWhile_length_lt _ _ (by simp [c64])
+  have hlast : (c64 : Consts ℝ).ozZeta.getLast (by simp [c64]) = 100 := by
+    simp [c64]; norm_num
+  rw [hlast]
+  simp; linarith
+
+end gatherguards
+
+section srczsteps
+variable {α : Type} [Scalar α]
+
+/-- zsteps.cpp, read by the strict C++ reader `harness/cpptrans.py` (one template, one `while` loop, two `push_back`s, one
+update): one unfolding of the model's loop `zstepsAux` IS the translated loop test and iteration — the step pushed to
+`delzs`, the mid-step altitude pushed to `zsave`, the next altitude — `ret0_push` / `ret1_push` are what is appended to the
+vector returned FIRST / SECOND (`zsave, delzs = cppzsteps(…)` unpacks by position), so a swapped return order breaks this too.
+For every `Scalar` instance (so also at `Float`, where the model's `zsteps` is compared step by step with the rebuilt
+extension).  A changed constant (`2.0`), operator, loop test (`<` for `<=`), push order or update breaks it. -/
+theorem src_zstepsAux (c : Consts α) (s z : α) (fuel : Nat) :
+    zstepsAux c s (fuel + 1) z =
+      (let it := Gen.Src.C06.zstepsIter z s c.radE c.zMaxZ c.zmax c.dL c.pi
+       if it.cond then (it.ret0_push, it.ret1_push) :: zstepsAux c s fuel it.state_next else []) := by rfl
+
+/-- the step length of the model is the one pushed by the translated iteration -/
+theorem src_delz (c : Consts α) (s z : α) :
+    delz c s z = (Gen.Src.C06.zstepsIter z s c.radE c.zMaxZ c.zmax c.dL c.pi).ret1_push := by rfl
+
+end srczsteps
+
+/-- the valid segments of an event start from the translated head of `run`; with `src_segments` every per-step quantity of
+`slant_depth` / `valid_arrays` is then translated code as well -/
+theorem src_eventSegs (c : Consts ℝ) (β alt e100 : ℝ) :
+    eventSegs c β alt e100 =
+      (segments c (Gen.Src.C06.runHead β alt e100 c.radE c.zmax).sinThetView alt
+        (Gen.Src.C06.runHead β alt e100 c.radE c.zmax).Eshow).1 := by
+  unfold eventSegs
+  rw [src_runHead]
+
+/-- assembly, strengthened: the model's `runOn` (= `CphotAng.run` for given valid segments) is the translated head of `run`,
+the cloud decision (`zs[-2] < cloud top`: model), then `finishSrc` — every per-segment, per-wavelength, per-ring and
+per-energy-bin quantity of the body of `run` computed by code TRANSLATED FROM THE SOURCE (`e0`, `cherenkov_threshold_angle`,
+`tracklen`, `d_to_det`, `sphoton_yeild` with `aerosol_model` in place, the cloud mask, the pieces of `photon_sum`, the sums'
+summands, the mean angle, `cher_ang_sig_i`) — and the translated tail of `run` (`cherenkov_area`, scaling, degrees).  What is
+still the model's: list plumbing, the left-to-right sums, `np.argmax`, `np.count_nonzero`, the test `taphotsum == 0`, the
+energy nodes `ehill` and the early exit `zs[-2] < cloud top`. -/
+theorem src_runOn_body (c : Consts ℝ) (detAlt β alt e100 : ℝ) (segs : List (Seg ℝ)) (cloud : Option ℝ) :
+    runOn c detAlt β alt e100 segs cloud =
+      (let hd := Gen.Src.C06.runHead β alt e100 c.radE c.zmax
+       let tail := fun photsum ave sig dmax =>
+         Gen.Src.C06.runScaled β alt e100 c.zmax c.radE c.zmax detAlt photsum ave sig
+           (Gen.Src.C06.cherenkovArea ave dmax c.pi)
+       match penultimate segs with
+       | none => ((0 : ℝ), (0 : ℝ))
+       | some pen =>
+         match cloud with
+         | none => finishSrc tail c hd.Eshow hd.ThetView segs none
+         | some h =>
+           if Scalar.ltb pen.z h then ((0 : ℝ), (0 : ℝ))
+           else finishSrc tail c hd.Eshow hd.ThetView segs (some h)) := by
+  rw [src_runOn]
+  cases penultimate segs <;> cases cloud <;> simp only [← src_finishBody] <;> rfl
 
 end C06
